@@ -122,7 +122,10 @@ def enum_methods():
     return sorted(n for n in names if n not in skip and not n.startswith("_abc"))
 
 
-def protocol_probes(acc, d, driver, seed):
+HANDLES = ("/", "g", "g/sub", "g|local_only", "/|skel_only", "g|read_only", "g|local_only>sub")
+
+
+def protocol_probes(acc, d, driver, seed, handles=HANDLES, near=True):
     rng = random.Random(seed)
     sub = setup(d, driver)
     mc = sub.mc
@@ -139,7 +142,7 @@ def protocol_probes(acc, d, driver, seed):
                 return mc[gname]
             path, flag = gname.split("|")
             return mc[path].restrict(**{flag: True})  # (mc["/"] is a fresh wrapper of the root group: restrict() works in place)
-        for gname in ("/", "g", "g/sub", "g|local_only", "/|skel_only", "g|read_only", "g|local_only>sub"):
+        for gname in handles:
             if ">" in gname:
                 grp = handle(gname.split(">")[0])[gname.split(">")[1]]  # child reached from a restricted handle
             else:
@@ -177,7 +180,7 @@ def protocol_probes(acc, d, driver, seed):
                             acc.violation(f"reserved-path-accepted:{mname}", f"{mname}{tuple(desc[3])} {kw} at {gname} returned {returned!r} instead of being rejected",
                                           {"kind": "probe", "driver": driver, "group": gname, "method": mname, "path": repr(path) if isinstance(path, bytes) else path})
         # near misses must work as ordinary names
-        for nm in NEAR:
+        for nm in (NEAR if near else ()):
             acc.count("near_miss_probes")
             try:
                 mc[nm] = 3
@@ -198,7 +201,7 @@ def protocol_probes(acc, d, driver, seed):
 
 
 def units(tier, seed):
-    us = [{"kind": "proto", "driver": d, "seed": seed} for d in ("h5", "ih5", "ih5mf")]
+    us = [{"kind": "proto", "driver": d, "seed": seed, "handle": h} for d in ("h5", "ih5", "ih5mf") for h in HANDLES]
     us += [dict(u, kind="vis") for u in CC.make_units(tier, seed, 300, 6000)]
     return us
 
@@ -207,7 +210,7 @@ def run_unit(u, acc):
     if u["kind"] == "proto":
         d = acc.newdir("c8")
         try:
-            protocol_probes(acc, d, u["driver"], u["seed"])
+            protocol_probes(acc, d, u["driver"], u["seed"], handles=(u["handle"],) if "handle" in u else HANDLES, near=u.get("handle", "/") == "/")
         finally:
             acc.rmdir(d, collect=True)
     else:
